@@ -1,8 +1,7 @@
-"""C09 Prune never loses data still referenced by a remaining snapshot."""
-import verif
 from props import repo_common
 
 
 def run(ctx):
+    design = repo_common.design_runs(ctx, "prune")
     out = ctx.go_test("cmd/restic", "^TestVerif_C09$", timeout=3000)
-    return repo_common.finish_trace(ctx, out, "model_checking")
+    return repo_common.finish_trace(ctx, out, "model_checking", extra_cov={"design_model_runs": design})
